@@ -139,6 +139,42 @@ def cli_cases(ctx, drv):
         trees.rmtree(root)
 
 
+def double_reference_cases(ctx, drv):
+    """a sub-Manifest referenced twice - from its parent and from the Manifest above, or by a DATA line besides its MANIFEST
+    line - where the reference that is NOT used for loading carries a wrong digest: the merged entry is checked by the walk"""
+    for variant in ('second-manifest-line-above', 'second-manifest-line-in-parent', 'data-line-besides'):
+        for bad in (False, 'extra', 'primary'):
+            root = common.scratch_dir('gv.dref.')
+            try:
+                pl = gen_tree.Plan()
+                pl.dirs.update(['sub', 'sub/deep'])
+                pl.files['sub/deep/f'] = b'content'
+                pl.files['top.txt'] = b'top'
+                pl.manifests['Manifest'] = [{'tag': 'DATA', 'path': 'top.txt', 'target': 'top.txt', 'hashes': ['SHA1']},
+                                            {'tag': 'MANIFEST', 'path': 'sub/Manifest', 'target': 'sub/Manifest', 'hashes': ['SHA1']}]
+                pl.manifests['sub/Manifest'] = [{'tag': 'MANIFEST', 'path': 'deep/Manifest', 'target': 'sub/deep/Manifest', 'hashes': ['MD5']}]
+                pl.manifests['sub/deep/Manifest'] = [{'tag': 'DATA', 'path': 'f', 'target': 'sub/deep/f', 'hashes': ['SHA1']}]
+                extra = {'tag': 'MANIFEST', 'path': 'sub/deep/Manifest', 'target': 'sub/deep/Manifest', 'hashes': ['SHA1'], 'dup': 'manifest-twice'}
+                if variant == 'second-manifest-line-in-parent':
+                    extra = dict(extra, path='deep/Manifest')
+                    where = 'sub/Manifest'
+                else:
+                    where = 'Manifest'
+                if variant == 'data-line-besides':
+                    extra['tag'] = 'DATA'
+                if bad == 'extra':
+                    extra['bad_hash'] = True
+                elif bad == 'primary':
+                    # the ordinary reference (in the parent) is the wrong one; the Manifest gets loaded through the other, right one
+                    pl.manifests['sub/Manifest'][0]['bad_hash'] = True
+                pl.manifests[where].insert(0 if variant == 'data-line-besides' else len(pl.manifests[where]), extra)
+                gen_tree.write_plan(pl, root)
+                for path in ('', 'sub', 'sub/deep'):
+                    run_case(ctx, drv, root, pl, path, 'double-reference/' + variant, expect=(False if bad else None), note=(variant, bad))
+            finally:
+                trees.rmtree(root)
+
+
 def run(ctx):
     ctx.rule = ('random trees (depth<=4, hostile names: spaces, tabs, newlines, backslashes, Unicode, look-alike prefixes, hidden names) '
                 'with Manifest layouts written by an independent writer (nesting, several Manifests per directory, every compression, '
@@ -150,6 +186,7 @@ def run(ctx):
     drv = common.Driver()
     try:
         corpus_dir = os.path.join(common.VERIF, 'corpus', 'C01')
+        double_reference_cases(ctx, drv)
         n = 400 if ctx.tier == 'quick' else 8000
         for i in range(n):
             one_tree(ctx, drv, 'tree', hostile=(i % 4 != 0))
